@@ -62,7 +62,7 @@ var curatedRoots = []Root{
 	{FEN: "1k6/8/8/8/8/8/7r/K5r1 w - - 0 1", Tag: "mated"},
 	{FEN: "R6R/3Q4/1Q4Q1/4Q3/2Q4Q/Q4Q2/pp1Q4/kBNN1KB1 w - - 0 1", Tag: "218-moves"},
 	{FEN: "8/5P1k/5K2/8/8/8/8/8 w - - 0 1", Tag: "underpromotion"},
-	{FEN: "8/8/8/8/8/5k2/6p1/7K b - - 0 1", Tag: "promotion-or-stalemate"},
+	{FEN: "8/8/8/8/8/5k2/6p1/6K1 b - - 0 1", Tag: "blocked-passer"},
 	{FEN: "k7/2K5/8/8/8/8/8/1R6 w - - 0 1", Tag: "mate-in-1-single-plan"},
 	{FEN: "8/8/8/8/8/4k3/3p4/3K4 w - - 0 1", Tag: "single-reply"},
 	{FEN: "4k3/8/8/8/8/8/3PPP2/3QKB2 w - - 0 1", Tag: "few-moves"},
